@@ -62,9 +62,12 @@ func c07Queries(front uint64, keys []cid.Cid) VL {
 	qs := VL{}
 	for _, k := range keys {
 		kb := VB(k.Bytes())
+		// has and get alternate positions so that the storage front-end's Get and GetStream both see every kind of key
 		qs = append(qs, VL{VT("has"), kb}, VL{VT("get"), kb})
 		if front == 0 {
 			qs = append(qs, VL{VT("getsize"), kb})
+		} else {
+			qs = append(qs, VL{VT("get"), kb})
 		}
 	}
 	if front == 0 {
@@ -120,11 +123,73 @@ type c07Case struct {
 	label    string
 }
 
+// c07Exhaustive: for one small archive, every option row x every container x every index source x
+// every front-end (the thorough tier's small-scope enumeration).
+func c07Exhaustive(c *Ctx, r *RNG) {
+	ar := c07GenArchive(r, c, false)
+	if len(ar.blks) > 5 {
+		ar.blks = ar.blks[:5]
+		ar.payload = append(refPayload(ar.roots, ar.blks), make([]byte, ar.npad)...)
+	}
+	keys := c07Keys(r, ar.blks)
+	ids := c07HasIdentity(ar.blks)
+	type cont struct {
+		file   []byte
+		idxIDs bool
+		label  string
+	}
+	conts := []cont{{ar.payload, true, "v1"}}
+	for _, dp := range []uint64{0, 7} {
+		conts = append(conts, cont{c07V2File(ar.payload, dp, 1, nil, false), true, "v2-indexless"})
+	}
+	for _, codec := range []uint64{0x0400, 0x0401} {
+		for _, wid := range []bool{false, true} {
+			ib := c07RefIndexBytes(codec, c07RefRecords(ar.roots, ar.blks, wid))
+			conts = append(conts, cont{c07V2File(ar.payload, 1, 512, ib, wid), wid || !ids, "v2-embedded"})
+		}
+	}
+	for row := 0; row < 8; row++ {
+		o := c07DefaultOpts
+		o.whole = row&1 != 0
+		o.storeID = row&2 != 0
+		o.zeof = row&4 != 0
+		if ar.npad > 0 && !o.zeof {
+			continue // null padding without the option is not a valid archive (malformed stream covers it)
+		}
+		for _, ct := range conts {
+			for _, sup := range []uint64{0, 0x0400, 0x0401} {
+				for _, front := range []uint64{0, 1, 2} {
+					if sup != 0 && front == 1 {
+						continue
+					}
+					o.codec = pick(r, []uint64{0x0400, 0x0401})
+					supplied := Val(VT("none"))
+					idxIDs := ct.idxIDs
+					if sup != 0 {
+						g := o
+						g.codec = sup
+						supplied = VL{VT("gen"), g.val(), VB(ar.payload)}
+						idxIDs = true
+					}
+					qs := c07Queries(front, keys)
+					expect := VL{VT("valid"), cidsVal(ar.roots), blksVal(ar.blks), vbool(idxIDs)}
+					in := VL{VN(front), o.val(), VB(ct.file), supplied, qs, VL{}, expect}
+					obs := c07RunImpl(c, front, o, ct.file, supplied, qs, r.Intn(3))
+					c.Emit("ro", in, obs, len(ar.blks) >= 2)
+					c.Count("exhaustive:" + ct.label)
+				}
+			}
+		}
+	}
+}
+
 func init() {
 	register("c07", func(c *Ctx) {
 		nArch := 150 * c.Scale
 		if c.Thorough {
-			nArch = 150 * c.Scale
+			for a := 0; a < 10*c.Scale; a++ {
+				c07Exhaustive(c, c.R.Fork())
+			}
 		}
 		for a := 0; a < nArch; a++ {
 			r := c.R.Fork()
@@ -152,8 +217,9 @@ func init() {
 			// embedded indexes, built independently of the library
 			embCodec := pick(r, []uint64{0x0400, 0x0401})
 			embID := r.Bool()
-			emb := c07V2File(ar.payload, dpad, ipad, c07RefIndexBytes(embCodec, c07RefRecords(ar.roots, ar.blks, embID)), embID)
-			for _, front := range []uint64{0, 1} {
+			embIdx := c07RefIndexBytes(embCodec, c07RefRecords(ar.roots, ar.blks, embID))
+			emb := c07V2File(ar.payload, dpad, ipad, embIdx, embID)
+			for _, front := range []uint64{0, 1, 2} {
 				cases = append(cases,
 					c07Case{front, o, v1, VT("none"), true, "v1-generated"},
 					c07Case{front, o, v2none, VT("none"), true, "v2-indexless-generated"},
@@ -174,7 +240,11 @@ func init() {
 				if r.Bool() && len(ar.blks) > 0 {
 					src = base
 				}
-				cases = append(cases, c07Case{0, o, base, VL{VT("gen"), g.val(), VB(src)}, true, "supplied"})
+				front := uint64(0)
+				if r.Chance(30) {
+					front = 2 // blockstore with the supplied index against storage with its own
+				}
+				cases = append(cases, c07Case{front, o, base, VL{VT("gen"), g.val(), VB(src)}, true, "supplied"})
 			}
 			for _, k := range cases {
 				qs := c07Queries(k.front, keys)
@@ -191,6 +261,8 @@ func init() {
 				obs := c07RunImpl(c, k.front, k.o, k.file, k.supplied, qs, backing)
 				c.Emit("ro", in, obs, len(ar.blks) >= 2)
 				c.Count("case:" + k.label)
+				c.Count("front:" + []string{"blockstore", "storage", "both"}[k.front])
+				c.Count("backing:" + []string{"bytes.Reader", "ReaderAt-only", "os.File", "mmap"}[backing])
 				c.CountN("queries", len(qs))
 			}
 
@@ -198,16 +270,38 @@ func init() {
 			if a%3 == 0 {
 				for t := 0; t < 6; t++ {
 					front := uint64(r.Intn(2))
-					f := append([]byte(nil), pick(r, [][]byte{v1, v2none, emb})...)
+					which := r.Intn(3)
+					f := append([]byte(nil), [][]byte{v1, v2none, emb}[which]...)
 					mo := o
-					kind := r.Intn(6)
+					kind := r.Intn(7)
 					sup := Val(VT("none"))
 					switch kind {
-					case 0, 1: // flip a byte
-						if len(f) > 0 {
-							f[r.Intn(len(f))] ^= pick(r, []byte{0x01, 0x80, 0xff, 0x7f})
+					case 0, 1: // flip a byte of the container / payload (not of the embedded index: a
+						// corrupted bucket length makes index.ReadFrom allocate it -- C09's subject, fatal here)
+						lim := len(f)
+						if which == 2 {
+							lim -= len(embIdx)
+						}
+						if lim > 0 {
+							f[r.Intn(lim)] ^= pick(r, []byte{0x01, 0x80, 0xff, 0x7f})
 						}
 						c.Count("malformed:byteflip")
+					case 6: // embedded index with wrong records: shifted / swapped / out-of-range offsets, foreign digests
+						recs := c07RefRecords(ar.roots, ar.blks, true)
+						for i := range recs {
+							switch r.Intn(5) {
+							case 0:
+								recs[i].off += uint64(1 + r.Intn(3))
+							case 1:
+								recs[i].off = recs[r.Intn(len(recs))].off
+							case 2:
+								recs[i].off = uint64(len(ar.payload) + r.Intn(50))
+							case 3:
+								recs[i].digest = r.Bytes(len(recs[i].digest))
+							}
+						}
+						f = c07V2File(ar.payload, dpad, ipad, c07RefIndexBytes(embCodec, recs), true)
+						c.Count("malformed:wrong-embedded-index")
 					case 2: // truncate
 						f = f[:r.Intn(len(f)+1)]
 						c.Count("malformed:truncated")
